@@ -43,6 +43,96 @@ class RecObserver(ProgressObserver):
         return [(k, s, sc, x) for _, _, k, s, sc, x in self.trace]
 
 
+class MemberFault(Exception):
+    pass
+
+
+class FaultyObserver(RecObserver):
+    """A user's observer that breaks: raises in __enter__ or in __exit__ (after recording the call)."""
+
+    def __init__(self, name, where):
+        super().__init__(name)
+        self.where = where
+
+    def __enter__(self):
+        self._add("enter")
+        if self.where == "enter":
+            raise MemberFault(f"{self.name}.__enter__ failed")
+
+    def __exit__(self, exc_type, exc_val, exc_tb):
+        self._add("exit", extra=None if exc_type is None else exc_type.__name__)
+        if self.where == "exit":
+            raise MemberFault(f"{self.name}.__exit__ failed")
+
+
+def run_with_faulty_member(seed, n_members, bundled, compose):
+    """One run of a small plan under a composite observer one of whose members raises in __enter__ / __exit__.
+    Returns (problem or None, info). Healthy members that were entered must be exited exactly once, members after a member whose
+    __enter__ failed are never entered nor notified, the failure propagates out of run, and every thread run created
+    (the display threads of bundled members) exits."""
+    import random
+    import time
+
+    import uberjob
+    import uberjob.progress as up
+
+    from . import quiesce, rec
+
+    rng = random.Random(seed)
+    where = rng.choice(["enter", "exit"])
+    k = rng.randrange(n_members)
+    recs = [FaultyObserver(f"m{i}", where) if i == k else RecObserver(f"m{i}") for i in range(n_members)]
+    members = [r.progress() for r in recs]
+    pos = {i: i for i in range(n_members)}
+    if bundled:
+        j = rng.randint(0, len(members))
+        members.insert(j, up.Progress(lambda: up.ConsoleProgressObserver(initial_update_delay=0.0005, min_update_interval=0.0005, max_update_interval=0.001)))
+    if compose == "tuple":
+        progress = tuple(members)
+    elif compose == "flat" or len(members) < 3:
+        progress = up.composite_progress(*members)
+    else:
+        progress = up.composite_progress(members[0], up.composite_progress(*members[1:]))
+    plan = uberjob.Plan()
+    calls = []
+    a = plan.call(lambda: calls.append(1) or 1)
+    b = plan.call(lambda x: calls.append(2) or x + 1, a)
+    before = rec.thread_census()
+    exc = None
+    try:
+        uberjob.run(plan, output=b, progress=progress, max_workers=rng.choice([1, 3]))
+    except BaseException as e:
+        exc = e
+    info = {"where": where, "faulty_member": k, "members": n_members, "bundled": bundled, "compose": compose, "raised": repr(exc)[:80]}
+    if not isinstance(exc, MemberFault):
+        return f"a member's {where} failure did not propagate out of run (run ended with {exc!r})", info
+    for i, r in enumerate(recs):
+        kinds = [t[2] for t in r.trace]
+        entered, exited = kinds.count("enter"), kinds.count("exit")
+        if where == "enter" and i > k:
+            if kinds:
+                return f"member {i} was entered/notified ({kinds[:4]}) although member {k}, entered before it, had failed in __enter__", info
+            continue
+        if where == "enter" and i == k:
+            continue  # its own __enter__ raised: whether it is exited is its own business
+        if entered != 1 or exited != 1:
+            return (f"healthy member {i} of the composite was entered {entered}x and exited {exited}x (member {k} raises in __{where}__): "
+                    f"an entered observer must be exited exactly once"), info
+        if kinds[-1] != "exit" or kinds[0] != "enter":
+            return f"healthy member {i} received {kinds[-1]!r} after __exit__ / before __enter__", info
+    if where == "enter" and calls:
+        return "calls were executed although the observer could not be entered", info
+    # threads created by run (display threads of bundled members) must exit
+    leaked = rec.new_threads(before)
+    deadline = time.monotonic() + 10
+    while leaked and time.monotonic() < deadline:
+        time.sleep(0.01)
+        leaked = [t for t in leaked if t.is_alive()]
+    if leaked:
+        return f"thread(s) created by run are still alive after it raised: {[getattr(getattr(t, '_target', None), '__name__', t.name) for t in leaked]}", info
+    return None, info
+
+
 def check_trace(trace, *, balanced, succeeded):
     """Trace specification. `balanced`: every call ended normally or with an Exception (then running must be closed)."""
     if not trace:
